@@ -185,5 +185,20 @@ check("C07", "proof",
       "written from the statement (bodies up to length 3-4 over a 16-symbol adversarial alphabet x 8 quoting styles x 2 runners).",
       "regular-language obligations (z3 regex) + exhaustive finite escape table + bounded-exhaustive decoding differential", "DESIGN.md 4/C07")
 _pending = "contracts for this property are not built yet in this revision (work in progress, see DESIGN.md section 8 build order)"
-for _p in ["C03","C04","C06"]:
+check("C06", "proof",
+      "Grammar half, decided on the real cel.lark as compiled by lark on every run: the strict LALR(1) analysis reports no "
+      "conflict; with helper non-terminals inlined the production set equals, production by production, a canonical "
+      "stratified grammar written from the statement's precedence table (contracts/canonical_cel_rules.lark); %ignore is "
+      "exactly whitespace and // comments (z3 regex language equality); in all 145 parser states the words true/false/null "
+      "lex as literals. Dump half: every DumpAST method is executed symbolically from the real source for every production "
+      "(arity 1-3 of the variadic ones) against the unparse contract stack' == P + [yield of the production with the "
+      "children's texts], cross-checked per path against CPython; every adjacency the methods write without whitespace is a "
+      "z3 regular-language obligation (no terminal matches across the boundary).",
+      "the parser differential against a reference precedence-climbing parser (all operator pairs, triples sampled/all) "
+      "and the dump->parse round trip over generated derivations are bounded stand-ins; lark's LALR construction and "
+      "lexer are trusted; string-literal tokens at the left of a boundary are covered by the bounded round trip only. "
+      "Two recorded findings: empty list literal dump (test-pinned) and integer receiver before '.'.",
+      "grammar-level obligations on the real compiled grammar (LALR conflict-freedom, production-set equality with the canonical precedence grammar), "
+      "per-production unparser contracts by symbolic execution + z3 regex token-boundary obligations, bounded parser differential", "DESIGN.md 4/C06")
+for _p in ["C03","C04"]:
     NA[_p] = _pending
